@@ -294,6 +294,21 @@ static void child_exercise(const char* path, const uint8_t* buf, size_t n, int m
       if ((x = carquet_reader_get_column(rd, nrg, 0, &err))) { badidx = 1; carquet_column_reader_free(x); }
       if ((x = carquet_reader_get_column(rd, 0, -1, &err))) { badidx = 1; carquet_column_reader_free(x); }
       if ((x = carquet_reader_get_column(rd, 0, nc, &err))) { badidx = 1; carquet_column_reader_free(x); } }
+    /* ... through the statistics API too: row_group_matches / filter_row_groups / column_statistics with a row group or a
+     * column outside the file - near misses and far ones - and probe sizes that do and do not fit any type */
+    { static const int32_t far[] = { -1, 0, 1, 2147483647, -2147483647 - 1, 1 << 28, -(1 << 28), 65536 };
+      uint8_t probe[16]; memset(probe, 0x5A, sizeof probe);
+      static const int32_t psz[] = { 4, 8, 1, 3, 12, 0 };
+      for (int q = 0; q < 8; q++) for (int z = 0; z < 6; z++) {
+          int32_t bc = q == 1 ? nc : q == 2 ? nc + 1 : far[q];
+          int32_t bg = q == 1 ? nrg : q == 2 ? nrg + 1 : far[q];
+          bool mm = false; int32_t idx[4];
+          if (carquet_reader_row_group_matches(rd, 0, bc, CARQUET_COMPARE_EQ, probe, psz[z], &mm) == CARQUET_OK) badidx = 1;
+          if (carquet_reader_row_group_matches(rd, bg, 0, CARQUET_COMPARE_GE, probe, psz[z], &mm) == CARQUET_OK) badidx = 1;
+          /* filter_row_groups keeps a row group it cannot judge (documented: conservative): only called, for what it touches */
+          (void)carquet_reader_filter_row_groups(rd, bc, CARQUET_COMPARE_LT, probe, psz[z], idx, 4);
+      }
+    }
     for (int g = 0; g < nrg && g < 3; g++) for (int c = 0; c < nc && c < 5; c++) {
         carquet_column_reader_t* cr = carquet_reader_get_column(rd, g, c, &err);
         if (!cr) { errs++; continue; }
